@@ -14,7 +14,9 @@
 //
 //	(ii) no trace: the session without its rejected inputs gives, input by input, the same verdict / output / value /
 //	     error for all the other inputs. On a difference the rejected input to blame is found by keeping them one at
-//	     a time (which also shrinks the reported history).
+//	     a time (which also shrinks the reported history). When that comparison is clean, the session without its
+//	     first rejected input only is compared as well, verdicts of the other rejected inputs included (an input
+//	     wrongly rejected because of an earlier rejected one would otherwise be dropped together with it).
 //	(i)  batch: for every accepted input (up to the first difference found by (ii)), a fresh non-incremental
 //	     compile+run of «all previously accepted inputs + this input» as one program (fresh runtime) prints, after the
 //	     marker that precedes the input, exactly what the session printed for it, and ends with the same result value
@@ -65,16 +67,23 @@ var alphabet = []input{
 	{Name: "reopen", Res: "class", Src: "class Foo27\n  def j: Int then 6\nend\nprintln(Foo27().j)"},
 	{Name: "useclass", Obs: true, Res: "class", Core: true, Src: `println(Foo27().k + 1)`},
 	{Name: "defconst", Res: "const", Src: "const K27 = 7\nprintln(K27)"},
+	// non-static constants whose initialiser calls a top-level method (checked through the method-scope copies of the
+	// checker); each is paired with a def because an input with such a constant and no def loses the constant's code
+	{Name: "constmk", Res: "const", Core: true, Src: "def mk27: Int then 20\ndef helper27: Int then 40\nconst KM27: Int = mk27() + 1\nprintln(KM27)"},
+	{Name: "consthelper", Res: "const", Core: true, Src: "def pad27: Int then 0\nconst KH27: Int = helper27() + 1\nprintln(KH27)"},    // valid only when an accepted input (constmk) defined helper27
+	{Name: "defconsthelper", Res: "const", Core: true, Src: "def late27: Int then 41\nconst KD27: Int = late27() + 1\nprintln(KD27)"}, // defines a method and a constant calling it
+	{Name: "constnodef", Res: "const-without-def", Core: true, Src: "const KN27: Int = mk27() + 1\nprintln(KN27)"},                    // like constmk, but the input defines no method
 	// instance variables: a class with an instance variable, then a reopening that adds an instance variable (no locals involved)
 	{Name: "defiv", Res: "ivar", Core: true, Src: "class Iv27\n  var @x: Int\n  init(@x); end\n  def x: Int then @x\nend\nprintln(Iv27(1).x)"},
 	{Name: "reopeniv", Res: "ivar", Core: true, Src: "class Iv27\n  var @a: String?\n  def seta(v: String): Int\n    @a = v\n    x()\n  end\nend\nprintln(Iv27(3).seta(\"A\"))"}, // rejected (after declaring Iv27 and @a) while Iv27#x is undefined
 	// rejected after declaring something; they fail in different phases of the checker
-	{Name: "badclass", Res: "class", Core: true, Src: "class Foo27\n  def k: Int then \"s\"\nend"},      // class declared/reopened; type error in a method body
-	{Name: "badmeth", Res: "method", Src: `def m27(x: Int): String then x`},                             // method declared; type error in its body
-	{Name: "badsig", Res: "method", Src: `def m27(x: Nope27): Int then 1`},                              // method declared; error in the signature phase
-	{Name: "badconst", Res: "const", Src: "const K27 = 1\nb27 := K27 + \"s\""},                          // constant declared; type error in the expression phase
-	{Name: "badlocal", Res: "local", Core: true, Src: "a := 1\na + \"s\""},                              // local declared (or assigned); then a type error
-	{Name: "badsuper", Res: "class", Core: true, Src: "class Foo27 < Nope27\n  def k: Int then 9\nend"}, // class declared; error in the type-definition phase
+	{Name: "badclass", Res: "class", Core: true, Src: "class Foo27\n  def k: Int then \"s\"\nend"},                                       // class declared/reopened; type error in a method body
+	{Name: "badmeth", Res: "method", Src: `def m27(x: Int): String then x`},                                                              // method declared; type error in its body
+	{Name: "badsig", Res: "method", Src: `def m27(x: Nope27): Int then 1`},                                                               // method declared; error in the signature phase
+	{Name: "badconst", Res: "const", Src: "const K27 = 1\nb27 := K27 + \"s\""},                                                           // constant declared; type error in the expression phase
+	{Name: "badlocal", Res: "local", Core: true, Src: "a := 1\na + \"s\""},                                                               // local declared (or assigned); then a type error
+	{Name: "badhoist", Res: "method", Core: true, Src: "def helper27: Int then 41\nconst KB27: Int = helper27() + 1\nzz27 := 1 + \"s\""}, // top-level method and a constant calling it hoisted; type error in the expression phase
+	{Name: "badsuper", Res: "class", Core: true, Src: "class Foo27 < Nope27\n  def k: Int then 9\nend"},                                  // class declared; error in the type-definition phase
 	{Name: "raise", Res: "none", Core: true, Src: "println(\"side\")\nthrow unchecked :boom27", BatchAfter: `println("side")`},
 	{Name: "pure", Res: "none", Src: `1 + 2`},
 }
@@ -427,6 +436,26 @@ func checkSession(r *engine.R, seq []int) {
 			sig := fmt.Sprintf("rejected input leaves a trace: rejected=%s%s damages=%s", rname, rdiag, alphabet[rseq[dd]].Res)
 			r.Violation(sig, fmt.Sprintf("history: %s\nreduced to: %s\n%sinput %s was rejected, yet without it the session is\n%sinput %d (%s) gives  %s  with the rejected input and  %s  without it (%s)\n%s",
 				names(seq), names(rseq), render(rseq, rres0), rname, render(red, rres), dd, alphabet[rseq[dd]].Name, rres0[dd], want, diffShape(rres0[dd], want), rres0[dd].Stack), input)
+		} else {
+			// (ii-b) verdicts too: without its FIRST rejected input the session must observe the same for every other
+			// input, the other rejected ones included (an input wrongly rejected because of an earlier rejected input
+			// is invisible to the comparison above, which drops it as well)
+			first := -1
+			for i := range seq {
+				if rejected[i] {
+					first = i
+					break
+				}
+			}
+			one := map[int]bool{first: true}
+			r.Count("trace_comparisons", 1)
+			if d1, red1, rres1 := firstDiff(seq, res, one); d1 >= 0 {
+				limit = d1
+				want := obsAt(red1, d1, seq, one, rres1)
+				sig := fmt.Sprintf("rejected input leaves a trace: rejected=%s[%s] damages=%s", alphabet[seq[first]].Name, diagClass(res[first].Diags), alphabet[seq[d1]].Res)
+				r.Violation(sig, fmt.Sprintf("history: %s\n%sinput %d (%s) was rejected, yet without it the session is\n%sinput %d (%s) gives  %s  with the rejected input and  %s  without it (%s)\n%s",
+					names(seq), render(seq, res), first, alphabet[seq[first]].Name, render(red1, rres1), d1, alphabet[seq[d1]].Name, res[d1], want, diffShape(res[d1], want), res[d1].Stack), input)
+			}
 		}
 	}
 
@@ -513,9 +542,9 @@ func main() {
 	engine.Main(&engine.Spec{
 		Prop:  "C27",
 		Level: "exploration",
-		Rule: fmt.Sprintf("quick: every sequence of exactly 3 inputs over a core alphabet of %[2]d REPL inputs (shorter histories are their prefixes); thorough: every sequence of exactly 3 inputs over the full alphabet of %[1]d inputs and every sequence of exactly 4 inputs over the core alphabet without redefmeth and raise (%[3]d inputs). "+
-			"Alphabet: define/use/retype a local; define a method and a caller of it, call it through the caller, redefine it (same signature; new return type); define/reopen/use a class; define a constant; a class with an instance variable, reopened with a new instance variable; "+
-			"six inputs rejected after declaring a class/method/constant/local (failing in the type-definition, signature, method-body and expression phases); a run-time error after a side effect; a pure expression. "+
+		Rule: fmt.Sprintf("quick: every sequence of exactly 3 inputs over a core alphabet of %[2]d REPL inputs (shorter histories are their prefixes); thorough: every sequence of exactly 3 inputs over the full alphabet of %[1]d inputs and every sequence of exactly 4 inputs over the core alphabet without redefmeth, raise and the method-calling-constant inputs (%[3]d inputs). "+
+			"Alphabet: define/use/retype a local; define a method and a caller of it, call it through the caller, redefine it (same signature; new return type); define/reopen/use a class; define a constant; constants whose initialiser calls a top-level method (defined by the same, an earlier accepted, or only a rejected input; with and without a def in the input); a class with an instance variable, reopened with a new instance variable; "+
+			"seven inputs rejected after declaring a class/method/constant/local (failing in the type-definition, signature, method-body and expression phases); a run-time error after a side effect; a pure expression. "+
 			"Driven through the incremental checker + persistent VM thread exactly as repl.evaluate does; oracle (ii) the session without its rejected inputs observes the same, (i) each accepted input vs. a fresh batch run of all accepted inputs so far; "+
 			"a history is non-trivial when it mixes rejected and accepted inputs", len(alphabet), nCore, nCore-len(notInH4)),
 		Assume: []string{"the session mirrors repl.evaluator.evaluate through the exported API it calls (checker.New, SetAdditionalAbortChecks, SetIncremental, CheckSourceBytecode, ClearErrors, vm.New, InterpretREPL, PrintError, ResetError)",
@@ -531,7 +560,7 @@ func main() {
 
 // notInH4: core inputs left out of the length-4 histories so that the thorough tier fits its budget on a loaded
 // machine (both are covered by every length-3 history over the full alphabet).
-var notInH4 = map[string]bool{"redefmeth": true, "raise": true}
+var notInH4 = map[string]bool{"redefmeth": true, "raise": true, "constmk": true, "consthelper": true, "defconsthelper": true, "constnodef": true, "badhoist": true}
 
 func enumerate(c *engine.Ctx, tag string, alpha []int, n int) {
 	prefix := make([]int, n-1)
